@@ -97,7 +97,7 @@ def collect(ctx, kinds, per_setting, npts, nproc=16):
     jobs = []
     for si, ss in enumerate(strata):
         ch = choose_strata(ss, ctx.tier, ctx.rng, per_setting)
-        jobs.append((si, [(i, ss[i]) for i in ch], ctx.seed, npts, kinds, ctx.tier == "thorough"))
+        jobs.append((si, [(i, ss[i]) for i in ch], ctx.seed, npts, kinds, True))
     jobs.sort(key=lambda j: -len(allops[j[0]]) * len(j[1]))
     t1 = time.time()
     with multiprocessing.get_context("fork").Pool(nproc) as pool:
@@ -234,7 +234,8 @@ def run_property(ctx, pid):
             ok, _ = ctx.coq(["Props/%s.vo" % pid, "Model/C05_Run.vo"], theorems_in={"Props/%s" % pid})
             if ok:
                 built = build_checker(ctx)
-    settings, allops, strata, recs = collect(ctx, (kind,), per_setting=10 ** 6, npts=(4 if thorough else 1))
+    settings, allops, strata, recs = collect(ctx, (kind,), per_setting=10 ** 6, npts=(12 if thorough else 2))
+    recs = corpus_sites(ctx, pid, settings, allops, kind) + recs
     tables_match_live(ctx, settings, allops)
     touched = len(set(r["si"] for r in recs))
     ctx.obligation("coverage:all-settings-touched", touched == len(settings), "%d of %d settings" % (touched, len(settings)))
@@ -298,7 +299,7 @@ def run_property(ctx, pid):
     skipped = sum(1 for r in recs if r["skipped"])
 
     # ---- whole lists
-    lrecs = listings(ctx, allops, strata, count=(4 if thorough else 1), with_u=(pid == "C06"))
+    lrecs = listings(ctx, allops, strata, count=(12 if thorough else 2), with_u=(pid == "C06"))
     lbad = collections.Counter()
     for r in lrecs:
         ctx.count(("listing", r["si"], tuple(map(tuple, r["sites"]))))
@@ -328,7 +329,7 @@ def run_property(ctx, pid):
                     "free_dimensions": r["dim"], "multiplicity": r.get("mult"), "observed": r.get("obs_" + kind)})
     ctx.coverage.update({
         "rule": "every discovered (setting, exact site-symmetry group) pair x %d generic exact point(s); one key per pair; "
-                "plus %d listing(s) per setting through SymmetryConstraints%s" % (4 if thorough else 1, 4 if thorough else 1,
+                "plus %d listing(s) per setting through SymmetryConstraints%s" % (12 if thorough else 2, 12 if thorough else 2,
                                                                                  "/ExpandAsymmetricUnit" if pid == "C06" else ""),
         "settings_touched": touched, "strata_pairs": sum(len(s) for s in strata), "sites": len(recs), "sites_skipped_margin": skipped,
         "certificates_checked": len(lines), "certificates_rejected": len(bad_sites), "certificates_not_formable": len(errs),
@@ -340,6 +341,56 @@ def run_property(ctx, pid):
         "distribution_multiplicity": dict(collections.Counter(r.get("mult") for r in recs)),
         "exhaustive": False,
     })
+
+
+def corpus_sites(ctx, pid, settings, allops, kind):
+    """corpus/<pid>/*.json: past disagreements, visited first (same treatment as the generated sites)."""
+    import json
+    from diffpy.structure.spacegroups import SpaceGroupList
+    d = os.path.join(core.VERIF, "corpus", pid)
+    out = []
+    if not os.path.isdir(d):
+        return out
+    rng = random.Random(ctx.seed)
+    for fn in sorted(os.listdir(d)):
+        if not fn.endswith(".json"):
+            continue
+        c = json.load(open(os.path.join(d, fn)))
+        si = next((i for i, g in enumerate(settings) if g["short_name"] == c["short_name"]), None)
+        if si is None:
+            continue
+        ops, sg = allops[si], SpaceGroupList[si]
+        x = [F(v) for v in c["xyz"]]
+        Uin = [F(v) for v in c["Uin"]]
+        stab = st.stabiliser(ops, x)
+        rows = [[ops[i][0][3 * a + b] - int(a == b) for b in range(3)] for i in stab for a in range(3)]
+        rec = {"si": si, "stratum": -1 - len(out), "stab": stab, "dim": len(st.nullspace(rows, 3)), "x": [str(v) for v in x],
+               "Uin": [str(v) for v in Uin], "skipped": None, "pos": None, "u": None, "pos_err": None, "u_err": None,
+               "find_pos": [], "find_u": [], "exc": None}
+        out.append(rec)
+        try:
+            obs = ce.observe(sg, x, Uin)
+        except Exception as e:
+            rec["exc"] = "%s: %s" % (type(e).__name__, e)
+            continue
+        rec["mult"] = obs["mult"]
+        parsed = None
+        try:
+            rec[kind], parsed = (ce.pos_case if kind == "pos" else ce.u_case)(si, ops, stab, obs, rng)
+        except ce.CertError as e:
+            rec[kind + "_err"] = str(e)
+        try:
+            if kind == "pos":
+                rec["find_pos"] = list(ce.finder_pos(ops, stab, obs, parsed, rng))
+                rec["obs_pos"] = {"xyz": [float(v) for v in x], "null_space": obs["N"], "pparameters": obs["ppar"],
+                                  "formulas": [e["pf"] for e in obs["eq"]][:6]}
+            else:
+                rec["find_u"] = list(ce.finder_u(sg, ops, stab, obs, parsed, rng))
+                rec["obs_u"] = {"xyz": [float(v) for v in x], "Uin": obs["Uin"], "Uspace": obs["Usp"], "Uparameters": obs["Upar"],
+                                "Uij": obs["Uij"], "Uisotropy": obs["iso"]}
+        except ce.CertError as e:
+            rec[kind + "_err"] = rec[kind + "_err"] or str(e)
+    return out
 
 
 def run_checker_logged(ctx, lines):
@@ -382,5 +433,7 @@ def replay_property(ctx, pid, case):
             hits = list(ce.finder_u(sg, ops, stab, obs, parsed, rng))
     ctx.count(("replay", si))
     for k, msg, data in hits:
-        ctx.violation("replay %s: %s" % (c.get("short_name"), msg), dict(c, detail=data), key="%s:%s:%s:replay" % (pid, k, c.get("short_name")))
+        key = "%s:listing-%s:%s" % (pid, k, c.get("short_name")) if c.get("finder") == "listing" else \
+            "%s:%s:%s:stab%d" % (pid, k, c.get("short_name"), len(stab))
+        ctx.violation("replay %s: %s" % (c.get("short_name"), msg), dict(c, detail=data), key=key)
     ctx.obligation("replay:finder-ran", True, "%d hit(s)" % len(hits))
